@@ -19,8 +19,8 @@ def R(h, fns, bounds=RWA_BOUNDS, **kw):
     return K('rwa::' + h, profile='rwa', functions=fns, bounds=bounds, **kw)
 
 
-TRANSFER = R('c04_transfer', BASE + GATE + ['rwa::RWA::transfer', 'fungible::emit_transfer'])
-TRANSFER_FROM = R('c04_transfer_from', BASE + FRZ + ['rwa::RWA::transfer_from', 'fungible::Base::spend_allowance',
+TRANSFER = R('c04_transfer', BASE + GATE + ['rwa::RWA::transfer', '<RWA as ContractOverrides>::transfer', 'fungible::emit_transfer'])
+TRANSFER_FROM = R('c04_transfer_from', BASE + FRZ + ['rwa::RWA::transfer_from', '<RWA as ContractOverrides>::transfer_from', 'fungible::Base::spend_allowance',
                                                     'fungible::Base::allowance_data', 'fungible::Base::set_allowance',
                                                     'fungible::emit_transfer'])
 VALIDATE = R('c04_validate_transfer', BASE + GATE)
@@ -30,6 +30,10 @@ BURN = R('c04_burn', BASE + FRZ + ['rwa::RWA::burn', 'rwa::emit_tokens_unfrozen'
 RECOVER = R('c04_recover_balance', BASE + FRZ + ['rwa::RWA::recover_balance', 'rwa::RWA::forced_transfer',
                                                  'rwa::RWA::freeze_partial_tokens', 'rwa::RWA::set_address_frozen',
                                                  'rwa::emit_recovery_success'])
+# I2 (0 <= frozen <= balance) of the supervisory entry points: twin harnesses (same set-up + call, only that clause)
+FORCED_I2 = R('c04_forced_transfer_i2', FORCED['functions'])
+BURN_I2 = R('c04_burn_i2', BURN['functions'])
+RECOVER_I2 = R('c04_recover_balance_i2', RECOVER['functions'])
 FREEZE = R('c04_freeze_partial_tokens', BASE[1:2] + FRZ[1:2] + ['rwa::RWA::freeze_partial_tokens', 'rwa::emit_tokens_frozen'])
 UNFREEZE = R('c04_unfreeze_partial_tokens', FRZ[1:2] + ['rwa::RWA::unfreeze_partial_tokens', 'rwa::emit_tokens_unfrozen'])
 SETFROZEN = R('c04_set_address_frozen', ['rwa::RWA::set_address_frozen', 'rwa::emit_address_frozen'])
@@ -48,7 +52,8 @@ STUBS = [
 
 CHECKS = {
     'C04': {
-        'kani': [TRANSFER, TRANSFER_FROM, VALIDATE, MINT, FORCED, BURN, RECOVER, FREEZE, UNFREEZE, SETFROZEN, HISTORY],
+        'kani': [TRANSFER, TRANSFER_FROM, VALIDATE, MINT, FORCED, FORCED_I2, BURN, BURN_I2, RECOVER, RECOVER_I2, FREEZE, UNFREEZE,
+                 SETFROZEN, HISTORY],
         'bounds': RWA_BOUNDS,
         'outside_claim': 'the bodies of the compliance / identity-verifier contracts (they are oracles here); the contract-level '
                          'wrappers of the examples (operator authorization is property C06); sequences are covered by induction '
